@@ -71,8 +71,9 @@ Fixpoint count_rounds_aux (all missing : list nat) (sched : list nat) : nat :=
 Definition count_rounds (n : nat) (sched : list nat) : nat :=
   count_rounds_aux (seq 0 (2 * n)) (seq 0 (2 * n)) sched.
 
-(* more rounds than any run of n parties with k connections has effective steps *)
-Definition round_bound (n k : nat) : nat := 100 + 40 * n * n * k.
+(* more rounds than any run of n parties with k connections has effective
+   steps: one more than the initial value of the measure [mu] of MeshLive.v *)
+Definition round_bound (n k : nat) : nat := S (n * (3 * ((k + 1) * (n + 3) + 6))).
 Definition fair (n k : nat) (sched : list nat) : Prop := round_bound n k <= count_rounds n sched.
 
 (* ------------------------------------------------------------------ *)
